@@ -181,8 +181,8 @@ func c17Scenarios() []c17Scenario {
 		Hosts:   [][2]string{{"proxy.example.com", "127.0.0.1"}}}
 	ua := "127.0.0.9:5060"
 	lst := "127.0.0.1:5060"
-	vias3 := []string{"SIP/2.0/UDP 127.0.0.9:5060;branch=z9hG4bKa;rport, SIP/2.0/TCP up.example.net:5070;branch=z9hG4bKb", "SIP/2.0/UDP 10.2.2.2;branch=z9hG4bKc"}
-	rrs := []string{"<sip:10.8.0.1;lr>, Up <sip:up.example.net:5070;lr>;x=1"}
+	vias3 := []string{"SIP/2.0/UDP 127.0.0.9:5060;branch=z9hG4bKa;rport;x=o'neil, SIP/2.0/TCP up.example.net:5070;branch=z9hG4bKb", "SIP/2.0/UDP 10.2.2.2;branch=z9hG4bKc"}
+	rrs := []string{"<sip:o'hara@10.8.0.1;lr>, Up <sip:up.example.net:5070;lr>;x=1"}
 	body := []byte("v=0\r\ns=-\r\n")
 	extra := []WHdr{{"Contact", "<sip:alice@127.0.0.9:5060>"}, {"Content-Type", "application/sdp"}, {"Supported", "100rel"}, {"Subject", "hello"}, {"X-Ext", "1"}, {"Event", "presence"}}
 	req := func(method, ruri string, cseq string, toTag string, routes []string) *WMsg {
@@ -211,7 +211,7 @@ func c17Scenarios() []c17Scenario {
 			return []c17Step{{"tcp:a", "127.0.0.1:5062", invite(), true, 0}, {"tcp:a", "127.0.0.1:5062", info(2), false, 0}}
 		}},
 		{"request-by-route", cfg, func() []c17Step {
-			return []c17Step{{ua, lst, req("OPTIONS", "sip:x@foreign.example.net", "1", "", []string{"<sip:proxy.example.com:5060;lr>, <sip:127.0.2.1:5070;lr>", "<sip:127.0.2.2;lr>;p=1, \"N\" <sip:10.3.3.3;lr>"}), true, 0}}
+			return []c17Step{{ua, lst, req("OPTIONS", "sip:x@foreign.example.net", "1", "", []string{"<sip:proxy.example.com:5060;lr>, <sip:o'brien@127.0.2.1:5070;lr>", "<sip:127.0.2.2;lr>;p=1, \"N\" <sip:10.3.3.3;lr>"}), true, 0}}
 		}},
 		{"request-by-static-route", cfg, func() []c17Step {
 			m := req("OPTIONS", "sip:x@foreign.example.net", "1", "", nil)
